@@ -351,11 +351,13 @@ def print_schema_def(s):
         parts.append("  mutation: " + s.mutation)
     if s.subscription:
         parts.append("  subscription: " + s.subscription)
-    return "schema" + print_directives(getattr(s, "schema_directives", [])) + " {\n" + "\n".join(parts) + "\n}"
+    ni = " @nonIntrospectable" if getattr(s, "non_introspectable", False) else ""
+    return "schema" + print_directives(getattr(s, "schema_directives", [])) + ni + " {\n" + "\n".join(parts) + "\n}"
 
 
 def needs_schema_def(s):
-    return (s.explicit_schema_def or getattr(s, "schema_directives", []) or s.query != "Query"
+    return (s.explicit_schema_def or getattr(s, "schema_directives", []) or getattr(s, "non_introspectable", False)
+            or s.query != "Query"
             or (s.mutation and s.mutation != "Mutation")
             or (s.subscription and s.subscription != "Subscription"))
 
@@ -419,6 +421,7 @@ class GenOpts:
         self.rename_roots = 0.15
         self.p_gate = 0.0                 # @vtgate on arguments / fields (scheduler suspension points)
         self.p_covariant = 0.15           # implementer's field type is a subtype of the interface's
+        self.p_non_introspectable = 0.0   # `schema @nonIntrospectable`: __schema / __type are refused as field errors
         self.p_schema_pass = 0.0          # @vtpass on the schema: pass-through on_schema_execution / on_schema_subscription
         self.__dict__.update(kw)
 
@@ -608,6 +611,8 @@ def gen_schema(rng, opts=None):
             m.fields[f.name] = f
     if rng.random() < 0.1:
         s.explicit_schema_def = True
+    if o.p_non_introspectable and rng.random() < o.p_non_introspectable:
+        s.non_introspectable = True
     if o.p_schema_pass and rng.random() < o.p_schema_pass:
         # a schema-level directive whose hooks only forward the request (positionally or by keyword): transparent
         d = s.directives["vtpass"] = DirectiveDef("vtpass", ["SCHEMA"])
